@@ -1095,10 +1095,14 @@ fn lower_expr_with_args(
                 );
                 return None;
             }
-            Some(ast::Expr::EString {
-                value: value.to_string(),
-                astptr,
-            })
+            let Some(value) = unescape_string(value) else {
+                ctx.push_error(
+                    Some(token.text_range()),
+                    "Invalid unicode escape in string literal",
+                );
+                return None;
+            };
+            Some(ast::Expr::EString { value, astptr })
         }
         cst::Expr::MultilineStrExpr(it) => {
             let astptr = MySyntaxNodePtr::new(it.syntax());
@@ -1842,6 +1846,56 @@ fn apply_trailing_args(expr: ast::Expr, trailing_args: Vec<Trailing>) -> ast::Ex
         };
     }
     result
+}
+
+/// Decode the JSON-style escapes the lexer accepts inside `"…"`: `\" \\ \/ \b \f \n \r \t`
+/// and `\uXXXX` (a UTF-16 surrogate pair is written as two `\u` escapes). `None` for an
+/// escape that denotes no character (a lone surrogate).
+fn unescape_string(raw: &str) -> Option<String> {
+    fn hex4(chars: &mut std::str::Chars<'_>) -> Option<u32> {
+        let mut value = 0u32;
+        for _ in 0..4 {
+            value = value * 16 + chars.next()?.to_digit(16)?;
+        }
+        Some(value)
+    }
+
+    let mut out = String::with_capacity(raw.len());
+    let mut chars = raw.chars();
+    while let Some(ch) = chars.next() {
+        if ch != '\\' {
+            out.push(ch);
+            continue;
+        }
+        match chars.next()? {
+            '"' => out.push('"'),
+            '\\' => out.push('\\'),
+            '/' => out.push('/'),
+            'b' => out.push('\u{8}'),
+            'f' => out.push('\u{c}'),
+            'n' => out.push('\n'),
+            'r' => out.push('\r'),
+            't' => out.push('\t'),
+            'u' => {
+                let hi = hex4(&mut chars)?;
+                let code = if (0xD800..0xDC00).contains(&hi) {
+                    if chars.next()? != '\\' || chars.next()? != 'u' {
+                        return None;
+                    }
+                    let lo = hex4(&mut chars)?;
+                    if !(0xDC00..0xE000).contains(&lo) {
+                        return None;
+                    }
+                    0x10000 + ((hi - 0xD800) << 10) + (lo - 0xDC00)
+                } else {
+                    hi
+                };
+                out.push(char::from_u32(code)?);
+            }
+            _ => return None,
+        }
+    }
+    Some(out)
 }
 
 fn lower_arg(ctx: &mut LowerCtx, node: cst::Arg) -> Option<ast::Expr> {
